@@ -141,6 +141,7 @@ class Adversary(Scheduling):
         self.pos = 0
         self.proposals = []      # (clock, task id, machine id) for every proposal returned
         self.topups = 0          # reservations extended by a second provisioning call
+        self.early_releases = 0  # reservations given back before the workflow's tasks have ended
 
     def __repr__(self):
         return 'Adversary'
@@ -162,6 +163,10 @@ class Adversary(Scheduling):
             free = len(cluster.get_available_resources())
             if free > 0:
                 cluster.provision_batch_resources(1 + d % free, workflow_plan.id)
+        elif d is not None and d % 16 == 11 and cluster.is_observation_provisioned(workflow_plan.id):
+            # the reservation is given back early, possibly while one of this workflow's tasks still runs on a reserved machine
+            cluster.release_batch_resources(workflow_plan.id)
+            self.early_releases += 1
         elif d is not None and d % 8 == 7 and cluster.is_observation_provisioned(workflow_plan.id):
             # elastic top-up of an existing reservation (Cluster.provision_batch_resources appends to it)
             free = len(cluster.get_available_resources())
